@@ -22,6 +22,14 @@ type propCfg struct {
 var propOrder = []string{"C03", "C04", "C05", "C06", "C07", "C08", "C09", "C10", "C11", "C12", "C14", "C15", "C16", "C17", "C18", "C19"}
 
 var props = map[string]propCfg{
+	"C04": {
+		level: "exploration",
+		rule: "each run: one tape-generated specification (2-5 nodes, ordered branches over a small pattern/message vocabulary, guards, ECMAScript and native actions from the deterministic action language with injected failures, @var targets, every error-routing mode) and 4-11 (state, pending message) trials; every Spec.Step result is compared with the reference machine; distinct = distinct sequences of (reference rule, moved, consumed, #emitted); non-trivial = at least one trial moved the machine or was a documented error",
+		parts: []part{
+			{name: "", engine: "core", race: false, quick: 6000, thorough: 400000},
+		},
+		comps: []string{"real: core.Spec.Compile/Step, match.Match, interpreters/ecmascript (goja) - instrumented copies with the map-order seam", "reference: /verif/ref machine + mini-matcher (written from README 'Processing', doc/by-example.md, Spec field docs)", "injected: action/guard failures (throw, bad return, unserialisable emit), map iteration orders"},
+	},
 	"C17": {
 		level: "exploration",
 		rule: "each run: a tape-generated plan of make/cancel/sleep requests over <=3 timer ids issued by 1-3 requester tasks plus handler-issued requests, executed on the real timers code under the serial scheduler with the simulated clock; distinct = distinct (operation history, schedule) event hashes; non-trivial = at least one timer fired or was cancelled and at least two tasks interleaved",
